@@ -29,7 +29,7 @@ EXPLANATION = (
     'interval is at most 1000 nodes, and shouldStop returns true exactly on elapsed >= the limit selected by searchNeedMoreTime.'
     ' The limit shouldStop compares the elapsed time with is, on every path, bounded by the hard limit (hard, soft, or min(.., hard)).'
     ' Added later; (4) on every go path the option queue is drained (stopThread -> waitStop -> waitOptionsSet) before the protocol thread reads option values in computeTimeLimit / startThread.'
-    ' Added later; (5) Communicator::sendInitSearch must-writes the node / tbhit accumulators and every search passes it. (6) every position-decoding sweep of the on-demand tablebase generation gives up both for limit 0 (stop) and for a positive limit that has passed (ponderhit) - found and fixed defect D19. (7) the time origin of a search is the reception time of its go: unbroken chain clock reading -> SearchParams -> startThread -> Search::timeLimit -> tStart.')
+    ' Added later; (5) Communicator::sendInitSearch must-writes the node / tbhit accumulators and every search passes it. (6) every position-decoding sweep of the on-demand tablebase generation gives up both for limit 0 (stop) and for a positive limit that has passed (ponderhit) - found and fixed defect D19. (7) the time origin of a search is the reception time of its go: unbroken chain clock reading -> SearchParams -> startThread -> Search::timeLimit -> tStart. (8) = C14.5 the option values the limits are computed from are the ones set last.')
 UNDECIDED = ('wall-clock latency and the virtual-clock bound "within one polling interval" (timing is not a static quantity); the '
              'behaviour of the search between two polls.')
 ASSUMPTIONS = ['input domain of the property: wtime/btime 1..10^7 ms, inc 0..10^5, movestogo 0..100, BufferTime and the time-usage parameters inside their declared Param<> ranges',
@@ -60,6 +60,10 @@ def run(fb, rep, tier):
     C14.accumulators_reset(fb, rep, 'C06.5')
     c6_generation_polls_limit(fb, rep)
     c7_time_origin(fb, rep)
+    # .8 the limits are computed from the option values the user set last (BufferTime, ...): the queue of option changes
+    # waiting for an idle engine keeps the latest value per option (shared with C14.5)
+    from . import C14 as _C14
+    _C14.c5_option_queue_last_wins(fb, rep, 'C06.8')
 
 
 def _strip(t):
